@@ -175,6 +175,30 @@ def h_pad(env, n_mos, ne, frozen, canary=False):
     env.check_vec_eq(after2, snap2, "pad_rdms leaves the 2-RDM passed in unchanged")
 
 
+def h_aux_solver_rdm(env, key, solver):
+    """AUXILIARY concrete shape (no solver role; PySCF numerics): the RDMs of the classical solvers reproduce that solver's
+    energy through molecule.energy_from_rdms, are symmetric and trace to the number of active electrons (1e-6)."""
+    from tangelo import SecondQuantizedMolecule
+    from tangelo.algorithms.classical import FCISolver, CCSDSolver
+    from harness.c04 import AUX_MOLS, _XYZ
+    spec = AUX_MOLS[key]
+    with shim.concrete_mode():
+        m = SecondQuantizedMolecule(_XYZ[spec["xyz"]], q=spec["q"], spin=spec["spin"], basis="sto-3g", frozen_orbitals=spec["frozen"], uhf=spec["uhf"])
+        s = (FCISolver if solver == "fci" else CCSDSolver)(m)
+        e = float(s.simulate())
+        r1, r2 = s.get_rdm()
+        e2 = float(m.energy_from_rdms(r1, r2))
+    env.check_true(abs(e - e2) < 1e-6, f"{solver}: energy_from_rdms(get_rdm()) == solver energy [{key}]", detail=f"{e2} vs {e}")
+    if not spec["uhf"]:
+        r1 = np.asarray(r1)
+        r2 = np.asarray(r2)
+        ne = m.n_active_electrons
+        env.check_true(abs(np.trace(r1) - ne) < 1e-6, f"{solver}: trace of the 1-RDM == active electrons [{key}]", detail=str(np.trace(r1)))
+        env.check_true(float(np.abs(r1 - r1.T.conj()).max()) < 1e-8, f"{solver}: 1-RDM Hermitian [{key}]")
+        tr2 = float(np.einsum("iijj->", r2).real)
+        env.check_true(abs(tr2 - ne * (ne - 1)) < 1e-6, f"{solver}: sum_ij G[iijj] == N(N-1) [{key}]", detail=str(tr2))
+
+
 def shapes(tier, seed):
     from tangelo.algorithms.variational import BuiltInAnsatze
     out = []
@@ -190,6 +214,12 @@ def shapes(tier, seed):
                              modules=MODS, max_paths=32))
     out.append(Shape("canary/vqe_rdm", h_vqe_rdm, dict(opts=dict(molecule_key="SYM2", qubit_mapping="jw", up_then_down=False, ansatz=BuiltInAnsatze.UCCSD),
                                                         patt="ss", sum_spin=True, canary=True), modules=MODS, max_paths=32, canary=True))
+    from harness.c04 import AUX_MOLS
+    for key in AUX_MOLS:
+        for sv in ("fci", "ccsd"):
+            if AUX_MOLS[key]["uhf"] and sv == "fci":
+                continue
+            out.append(Shape(f"aux/solver_rdm/{sv}/{key}", h_aux_solver_rdm, dict(key=key, solver=sv), modules=()))
     pads = [(3, 4, [0]), (4, 4, [0, 3]), (3, 2, [2]), (4, 6, [0, 1])]
     if tier == "thorough":
         pads += [(4, 4, [0]), (4, 6, [0]), (4, 4, [3]), (4, 6, [1, 3])]
